@@ -173,6 +173,21 @@ func runC10(c *fw.Case) (o fw.Outcome) {
 				return
 			}
 		}
+		// somebody else's message that the library REFUSES in between (one history in three): another UE context whose
+		// algorithm is not implemented (128-NIA3 / 128-NEA3 / reserved), or a message too short to hold a MAC. Whatever that
+		// call returns, this context's next message is recovered as before.
+		if c.Idx%3 == 2 && s > 0 && r.Intn(6) == 0 {
+			other := tglib.NewRanUeContext("imsi-"+digits(r, 15), int64(r.Intn(1000)), uint8(pick(r, 3, 3, 5, 7, 1, 2)), uint8(pick(r, 3, 3, 4, 7, 1, 2)))
+			copy(other.KnasEnc[:], rbytes(r, 16))
+			copy(other.KnasInt[:], rbytes(r, 16))
+			junk := append([]byte{0x7e, 0x02}, rbytes(r, pick(r, 0, 1, 3, 5, 6, 30))...)
+			func() {
+				defer func() { recover() }()
+				tglib.NASDecode(other, uint8(pick(r, 1, 2, 2, 3, 4)), junk)
+			}()
+			o.Count("foreign_refused_messages", 1)
+			trace = append(trace, fmt.Sprintf("(other UE NIA%d/NEA%d)", other.IntegrityAlg, other.CipheringAlg))
+		}
 		plain, kind := plainDownlink(r)
 		// history profile (by case index): how often the AMF takes a new context into use. Rare resets let the SQN wrap
 		// (overflow > 0) before the next Security Mode Command arrives.
